@@ -208,6 +208,8 @@ pub struct ResourceStructure {
 impl ResourceStructure {
     pub fn new(resource_type: ResourceType, resource_flags: u16, resource_id: ResourceID) -> Self {
         let length = size_of::<u8>() * 3 + size_of::<u16>() * 2 + resource_id.len();
+        // The resource structure length is a 16-bit field.
+        assert!(length <= u16::MAX as usize);
 
         Self {
             resource_type,
